@@ -22,9 +22,10 @@ func stepBudget(n int) int64 { return 2000 + 200*int64(n) }
 
 // callResult is what a guarded library call produced.
 type callResult struct {
-	Panic  string // non-empty: the call panicked (message + location)
-	Budget bool   // the step budget was exceeded (would not terminate in time)
-	Steps  int64
+	Panic      string // non-empty: the call panicked (message + location)
+	PanicClass string // message without numbers + location
+	Budget     bool   // the step budget was exceeded (would not terminate in time)
+	Steps      int64
 }
 
 // guarded runs fn with a step budget (effective on instrumented builds)
@@ -45,6 +46,7 @@ func guarded(budget int64, fn func()) (res callResult) {
 				return
 			}
 			res.Panic = fmt.Sprintf("%v @ %s", r, panicSite())
+			res.PanicClass = normPanic(fmt.Sprint(r)) + " @ " + panicSite()
 		}
 	}()
 	fn()
